@@ -20,6 +20,8 @@ off-grid duration reported a time beyond the duration (5000 s duration, 3600 s s
 reported 0, 3600, 7200; the uninterrupted one 0, 3600) — found by this check, key `restart-extra-step-beyond-duration`.
 -/
 import WntrModel.Lemmas.SchedSplit
+import WntrModel.Lemmas.Restart
+import WntrModel.Gen.RestartFields
 
 namespace Wntr.C10
 open Wntr.Time Wntr.Sched
@@ -282,5 +284,98 @@ theorem pickle_transparent (cfg : Cfg) (a b : St) (h1 : a.simTime = b.simTime) (
     (h3 : a.vals = b.vals) :
     runSim cfg a.simTime a.prevTime a.vals = runSim cfg b.simTime b.prevTime b.vals := by
   rw [h1, h2, h3]
+
+/-! ## The hydraulic state: what a continued run reads is in the network or re-derived identically
+
+Model M5r (`Model/Restart.lean`): network state `Net C` (arbitrary core `C` — clock, statuses, settings, tank heads and
+previous heads, `TankLevelCondition._last_value`, leak flags, … — plus the `_is_isolated` flags) and simulator-object
+state `SimState` (`_rule_iter`, `_prev_isolated_junctions`, `_prev_isolated_links`).  The hydraulic solve, the
+pre-solve scheduler, the graph search and the post-solve work are ARBITRARY functions (`Pass`). -/
+
+open Wntr.Restart Wntr.Gen.RestartFields
+
+/-- the simulator attributes modelled as `SimState` -/
+def modelledSimState : List String := ["_rule_iter", "_prev_isolated_junctions", "_prev_isolated_links"]
+
+/-- attributes the loop reads that `__init__` computes once from the STRUCTURE of the network (name ↔ id maps, integer
+type, tolerances) — the same for every simulator object created for the same network -/
+def structuralConstants : List String := ["_int_dtype", "_node_id_to_name", "_link_id_to_name", "_node_name_to_id", "_link_name_to_id", "_Htol", "_Qtol", "_wn"]
+
+/-- **(source obligation 1)** the loop of `run_sim` rebinds exactly the attributes modelled as `SimState` — a new
+`self._x = …` inside the loop (new simulator state carried from pass to pass) breaks this -/
+theorem loop_rebinds_only_modelled_state : ∀ f ∈ storedInLoop, f ∈ modelledSimState := by decide
+
+theorem modelled_state_is_rebound : ∀ f ∈ modelledSimState, f ∈ storedInLoop := by decide
+
+/-- **(source obligation 2)** everything the loop reads from the simulator object is rebuilt by the prologue of EVERY
+`run_sim` (or is a structural constant), so nothing is inherited from `__init__` or from an earlier run -/
+theorem loop_reads_only_rebuilt_state : ∀ f ∈ readInLoop, f ∈ assignedInPrologue ∨ f ∈ structuralConstants := by decide
+
+/-- **(source obligation 3)** the modelled state is rebuilt FROM THE NETWORK (the assigned expression reads `self._wn`):
+`_rule_iter` from `_prev_sim_time`, `_prev_isolated_*` from the `_is_isolated` flags -/
+theorem modelled_state_rebuilt_from_network : ∀ f ∈ modelledSimState, f ∈ assignedInPrologue ∧ f ∈ prologueReadsWn := by decide
+
+/-- **(source obligation 4)** the only network attributes the loop stores through `self._wn` are the clock fields (part
+of the core `C`); everything else goes through element objects owned by the network -/
+theorem loop_stores_only_clock_in_wn : ∀ f ∈ wnStoredInLoop, f ∈ ["sim_time", "_prev_sim_time"] := by decide
+
+/-- **`run_split` with the hydraulic state** (for every `Pass`: arbitrary solve, scheduler, graph search satisfying the
+rule-iterator contract): the uninterrupted run of `k1 + k2` passes and the run of `k1` passes followed by a NEW
+simulator (state re-derived from the network the first part left) running `k2` passes end with the same network
+(clock, statuses, tank heads, last values, flags, …) and the same rows; `_prev_isolated_*` may be re-derived in a
+different order — only the set matters (`clear_eq_of_match`) -/
+theorem run_split_hydraulic {C R : Type} (p : Pass C R) (good : C → Prop) (hc : Contract p good) (w : Net C)
+    (hg : good w.core) (k1 k2 : Nat) :
+    let full := iter p (k1 + k2) (w, derive p w, [])
+    let p1 := iter p k1 (w, derive p w, [])
+    let p2 := iter p k2 (p1.1, derive p p1.1, [])
+    full.1 = p2.1 ∧ full.2.2 = p1.2.2 ++ p2.2.2 :=
+  run_split_state p good hc w hg k1 k2
+
+/-- … and the pass counts of the parts add up to that of the uninterrupted run (durations `t1 ≤ T`) -/
+theorem run_split_hydraulic_stops {C R : Type} (p : Pass C R) (good : C → Prop) (hc : Contract p good) (w : Net C)
+    (hg : good w.core) (t1 T : Int) (ht : t1 ≤ T) (k1 k : Nat)
+    (h1 : StopsAt p t1 k1 (w, derive p w, [])) (h2 : StopsAt p T k (w, derive p w, [])) :
+    k1 ≤ k ∧ (k1 < k → StopsAt p T (k - k1) ((iter p k1 (w, derive p w, [])).1, derive p (iter p k1 (w, derive p w, [])).1, [])) :=
+  stops_split p good hc w hg t1 T ht k1 k h1 h2
+
+/-- the time-stepping model `Sched` as a `Pass` (core = `St`; no hydraulics): the prologue's `_rule_iter`, the pre-solve
+scheduler, the clock advance and the saved row of `stepOnce` -/
+def schedPass (cfg : Cfg) : Pass St Row where
+  ruleIterOf c := initRuleIter cfg (c.simTime == 0) c.prevTime
+  pre c it := (presolve cfg (c.simTime == 0) { c with ruleIter := it }, (presolve cfg (c.simTime == 0) { c with ruleIter := it }).ruleIter)
+  isolated _ := ([], [])
+  post c _ _ :=
+    ({ c with prevTime := c.simTime, simTime := c.simTime + cfg.hyd - (c.simTime + cfg.hyd) % cfg.hyd },
+      if reportNow cfg c.simTime then [⟨c.simTime, c.vals⟩] else [])
+  simTime c := c.simTime
+
+/-- a network core the scheduler can be in at the head of a pass -/
+def schedGood (cfg : Cfg) (c : St) : Prop :=
+  Inv cfg c ∧ c.ruleIter = initRuleIter cfg (c.simTime == 0) c.prevTime ∧ -1 ≤ c.prevTime ∧ (c.simTime = 0 → c.prevTime = -1)
+
+/-- **the contract holds of `Sched`** (this is C04's invariant `_rule_iter = accepted time // rule_timestep + 1`): so
+`run_split_hydraulic` applies to the scheduler with ANY solve/graph functions that do not touch the clock -/
+theorem sched_pass_contract {cfg : Cfg} (hR : 0 < cfg.rule) (hH : 0 < cfg.hyd) : Contract (schedPass cfg) (schedGood cfg) := by
+  intro c fj fl hg
+  obtain ⟨hinv, hit, hp, _⟩ := hg
+  have hc : ({ c with ruleIter := initRuleIter cfg (c.simTime == 0) c.prevTime } : St) = c := by
+    cases c; simp only at hit ⊢; rw [← hit]
+  simp only [schedPass, hc]
+  have hs := stepOnce_stepped hR hH (c.simTime == 0) hinv
+  rw [stepOnce_fst] at hs
+  generalize presolve cfg (c.simTime == 0) c = q at *
+  have h1 := hs.prev_gt; have h2 := hs.sim_gt
+  simp only at h1 h2
+  have hne : (q.simTime + cfg.hyd - (q.simTime + cfg.hyd) % cfg.hyd) ≠ 0 := by omega
+  have hb : ((q.simTime + cfg.hyd - (q.simTime + cfg.hyd) % cfg.hyd) == 0) = false := by simpa using hne
+  have hiter := hs.iter
+  simp only at hiter
+  refine ⟨⟨hs.inv, ?_, by simp only; omega, fun h0 => absurd h0 hne⟩, ?_⟩
+  · simp only [hb, initRuleIter, Bool.false_eq_true, if_false]; exact hiter
+  · simp only [hb, initRuleIter, Bool.false_eq_true, if_false]; exact hiter
+
+example : schedGood cfgEx (startState cfgEx 0 (-1) [(0, 1)]) :=
+  ⟨startState_inv (by decide) _ (Or.inl rfl), rfl, by decide, fun _ => rfl⟩
 
 end Wntr.C10
